@@ -93,6 +93,8 @@ func fanoutRun(opt fanOpt) func(h []dsim.Rec) {
 	}
 	cfg.hbPeriod = time.Duration(300+dsim.Choose(3000)) * time.Millisecond
 	cfg.hbDisable = dsim.Choose(3) == 2
+	cfg.writeTO = dsim.Pick(time.Duration(0), 300*time.Millisecond, time.Second)
+	cfg.idleTO = 3 * time.Hour // stable peers may be silent for the whole run
 	e := newEnv(cfg)
 	e.w.ChunkMode = dsim.Choose(3)
 	e.w.SendBuf = dsim.Pick(1<<16, 4096, 512)
@@ -423,8 +425,15 @@ func fanoutRun(opt fanOpt) func(h []dsim.Rec) {
 				it.sub = &w.subs[len(w.subs)-1]
 				items[wi] = append(items[wi], it)
 				dsim.EnsureReleased("writer")
-				if dsim.Choose(4) == 0 {
+				switch dsim.Choose(12) {
+				case 0, 1, 2:
 					dsim.Sleep(time.Duration(dsim.Choose(200)) * time.Millisecond)
+				case 3:
+					if !opt.manyOps {
+						// a quiet period, longer than any write timeout
+						count("cov:quiet-period")
+						dsim.Sleep(time.Duration(1100+dsim.Choose(3000)) * time.Millisecond)
+					}
 				}
 			}
 		})
